@@ -2,8 +2,8 @@
 (***************************************************************************)
 (* Hashing to curve groups (C13) at the level of one public call: what     *)
 (* ep_map_sswum / ep_map_basic / ep_map_swift / ep_map_rnd, ep2_map_sswum /*)
-(* ep2_map_basic, eb_map (/ ep2_map_swift, ed_map: validity only) must     *)
-(* return for given input BYTES.                                           *)
+(* ep2_map_basic, eb_map, ed_map / ed_map_dst (ep2_map_swift: validity     *)
+(* only) must return for given input BYTES.                                *)
 (*                                                                         *)
 (* The construction (RFC 9380 hash_to_curve, with the library's documented *)
 (* choices as parameters):                                                 *)
@@ -353,7 +353,7 @@ ParamsOk2(e) ==
                   /\ GQ(F, C(3)) = c3 /\ GSgn0(F, C(3)) = 0
                   /\ C(4) = GM(F, GM(F, GN(F, GNat(F, 4)), gz), GI(F, d))
 
-(* ------------------------------------------------------------ Edwards (validity only) / binary curves *)
+(* ------------------------------------------------------------ Edwards / binary curves *)
 EdCrv(e) == [p |-> FPrime(e), a |-> FAbs(e, e.ca), d |-> FAbs(e, e.cd)]
 EdAbs(e, P) ==
     LET p == FPrime(e)
@@ -364,6 +364,38 @@ EdAbs(e, P) ==
 ValidEd(e) == /\ e.R.c \in {1, 2, 3} /\ PCanon(e, e.R)
               /\ ED!EOnCurve(EdAbs(e, e.R), EdCrv(e))
               /\ ED!EIsO(ED!EMulNat(BNorm(e.n.d), EdAbs(e, e.R), EdCrv(e)))
+(* ed_map / ed_map_dst on edwards25519 (RFC 9380 6.7.1 Elligator 2 on curve25519 with J = 486662, K = 1,  *)
+(* Z = 2; 6.8.2 / appendix D.1 rational map (v, w) = (c s/t, (s - 1)/(s + 1)), c = sqrt(-486664) a library *)
+(* parameter checked by its defining relation; exceptional points to the identity; cofactor 8):            *)
+(* uniform = expand_message_xmd(SHA-256, msg, dst, 2 L), two elements, sum, [8].                           *)
+Ell2(e, u) ==
+    LET p  == FPrime(e)
+        J  == FFromNat(486662, p)
+        c  == FAbs(e, e.mc[3])
+        g(x) == FAdd(FAdd(FMul(FSqr(x, p), x, p), FMul(J, FSqr(x, p), p), p), x, p)
+        x1a == FMul(FNeg(J, p), FInv(FAdd(<<1>>, FDbl(FSqr(u, p), p), p), p), p)
+        x1 == IF x1a = <<>> THEN FNeg(J, p) ELSE x1a
+        x2 == FSub(FNeg(x1, p), J, p)
+        sq == FIsSquare(g(x1), p)
+        sx == IF sq THEN x1 ELSE x2
+        y0 == FSqrt(g(sx), p)
+        t  == IF y0 = SqrtNone \/ y0 = <<>> THEN y0
+              ELSE IF BBit(y0, 0) = (IF sq THEN 1 ELSE 0) THEN y0 ELSE FNeg(y0, p)
+        sp1 == FAdd(sx, <<1>>, p)
+    IN  [pt |-> IF t = SqrtNone \/ t = <<>> \/ sp1 = <<>> THEN ED!EO
+                ELSE ED!EPt(FMul(FMul(c, sx, p), FInv(t, p), p), FMul(FSub(sx, <<1>>, p), FInv(sp1, p), p)),
+         ok |-> t # SqrtNone /\ FSqr(t, p) = g(sx)]
+EdFromMsg(e) ==
+    LET L  == Lpe(e)
+        x  == HX!XmdSha256(e.msg, e.dst, 2 * L)
+        c  == EdCrv(e)
+        Q0 == Ell2(e, FpOf(e, Chunk(x.out, 0, L)))
+        Q1 == Ell2(e, FpOf(e, Chunk(x.out, 1, L)))
+    IN  [pt |-> ED!EMulNat(<<8>>, ED!EAdd(Q0.pt, Q1.pt, c), c),
+         ok |-> x.ok /\ Q0.ok /\ Q1.ok /\ BNorm(e.h.d) = <<8>>
+                /\ FSqr(FAbs(e, e.mc[3]), c.p) = FNeg(FFromNat(486664, c.p), c.p)
+                /\ c.a = FNeg(<<1>>, c.p) /\ c.p = BSub(BShl(<<1>>, 255), <<19>>)]
+IsEd(e, r) == r.ok /\ ED!EEq(EdAbs(e, e.R), r.pt)
 EbCrv(e) == [f |-> BNorm(e.f), a |-> BNorm(e.ca), b |-> BNorm(e.cb)]
 EbAbs(e, P) ==       \* eb_map returns affine points (z = 1) or infinity (z = 0)
     IF BNorm(P.z) = <<>> THEN EInf ELSE EPt(BNorm(P.x), BNorm(P.y))
@@ -390,6 +422,27 @@ ValidEb(e) == /\ e.R.c = 1 /\ BNorm(e.R.z) \in {<<>>, <<1>>}
               /\ BBits(BNorm(e.R.x)) <= e.m /\ BBits(BNorm(e.R.y)) <= e.m
               /\ EOnCurve(EbAbs(e, e.R), EbCrv(e))
               /\ EMulNat(BNorm(e.n.d), EbAbs(e, e.R), EbCrv(e)).inf
+
+(* RFC 9380 appendix J.9.1 (BLS12381G1_XMD:SHA-256_SSWU_RO_, msg = ""): the published u[0], u[1] and P.   *)
+(* Evaluated with the constants the library reports for B12_P381 (Z, the 11-isogeny, x): accepted iff the  *)
+(* construction of this module, fed the RFC's field elements, yields the RFC's point - a check of the     *)
+(* spec AND of the library's constants against the standard suite (big-endian bytes).                      *)
+RfcU0 == <<11, 161, 75, 217, 7, 173, 100, 160, 22, 41, 62, 231, 194, 210, 118, 184, 234, 231, 31, 37, 164, 185,
+         65, 238, 206, 123, 13, 137, 241, 127, 117, 203, 58, 229, 67, 138, 97, 79, 182, 29, 104, 53, 173, 89,
+         242, 156, 86, 79>>
+RfcU1 == <<1, 155, 155, 215, 151, 159, 18, 101, 121, 118, 222, 40, 132, 199, 204, 225, 146, 184, 44, 23, 124,
+         128, 224, 236, 96, 68, 54, 167, 245, 56, 210, 49, 85, 47, 13, 150, 217, 247, 186, 190, 95, 163, 177,
+         155, 63, 242, 90, 201>>
+RfcPx == <<5, 41, 38, 173, 210, 32, 123, 118, 202, 79, 165, 122, 135, 52, 65, 108, 141, 201, 94, 36, 80, 23, 114,
+         200, 20, 39, 135, 0, 238, 214, 209, 228, 232, 207, 98, 217, 192, 157, 176, 250, 195, 73, 97, 43, 117,
+         158, 121, 161>>
+RfcPy == <<8, 186, 115, 132, 83, 191, 237, 9, 203, 84, 109, 187, 7, 131, 219, 179, 165, 241, 245, 102, 237, 103,
+         187, 107, 224, 232, 198, 126, 46, 129, 164, 204, 104, 238, 41, 129, 59, 183, 153, 73, 152, 243, 234,
+         224, 201, 198, 162, 101>>
+RfcVectorOk(e) ==
+    LET pad == <<0, 0, 0, 0, 0, 0, 0, 0, 0, 0, 0, 0, 0, 0, 0, 0>>
+        r == FromUniform1(e, pad \o RfcU0 \o pad \o RfcU1)
+    IN  Lpe(e) = 64 /\ r.ok /\ PEq(r.pt, Pt(BFromBE(RfcPx), BFromBE(RfcPy)))
 
 (* ------------------------------------------------------------ acceptance *)
 EpMsgOps == {"ep_map", "ep_map_sswum", "ep_map_basic", "ep_map_swift"}
@@ -430,8 +483,9 @@ MapAcceptOp(e) ==
             Clean(e) /\ Same(e) /\ Valid2(e) /\ IsPm2(e, Basic2(e))
       [] e.op = "ep2_map_swift" -> Clean(e) /\ Same(e) /\ Valid2(e)           \* validity only
       [] e.op \in {"ed_map", "ed_map_dst"} ->
-            IF Len(e.dst) > 255 THEN Refused(e) ELSE Clean(e) /\ Same(e) /\ ValidEd(e)     \* validity only (C17)
+            IF Len(e.dst) > 255 THEN Refused(e) ELSE Clean(e) /\ Same(e) /\ ValidEd(e) /\ IsEd(e, EdFromMsg(e))
       [] e.op = "eb_map" -> Clean(e) /\ Same(e) /\ ValidEb(e) /\ IsPmEb(e, BasicEb(e))
+      [] e.op = "rfc9380_bls12381g1" -> Clean(e) /\ RfcVectorOk(e)
       [] e.op = "restart" -> TRUE
       [] OTHER -> FALSE
 MapAccept(e) == MapAcceptOp(As(e, OpOf(e)))
